@@ -232,7 +232,7 @@ func TestC14(t *testing.T) {
 		}
 		m.Count("histories_"+v.name, 1)
 		m.Distinct(fmt.Sprintf("%s len=%s chunks=%s ops=%s", v.name, l.name, style, ops))
-		if i < 6 {
+		if i%293 == 31 {
 			m.Sample(map[string]any{"hash": v.name, "msg_len": n, "chunks": chunks, "ops": len(log), "digest": mon.Hex(v.ref(msg))})
 		}
 	})
